@@ -55,7 +55,12 @@ func init() {
 			"directed RIM-locator shapes (empty, GUID only, GUID + terminator only, 16..21 bytes, odd lengths, terminator in the middle / missing, unpaired surrogates, path-like names, 0/1-byte URI and device-path locators, undefined locator types) handed to exel.Locate with every locator type and embedded with consistent length fields in an otherwise genuine SP800-155 payload, event data, event and event log; " +
 			"PEM-bundle grammar: re-signed endorsements whose sev_snp.ca_bundle (and ca_bundle, cert) holds 0..3 well-formed CERTIFICATE blocks with bytes that are not a complete block before, between and after them (nothing, white space, text, every kind of partial block, blocks of other types, a whole further block, truncations of a further block: 12 lengths quick / every length thorough), in three carriers, with the options under which policy derivation reaches the bundle; " +
 			"signature-dispatched event payloads: event data = 16-byte signature + payload for every signature of a dictionary (the TCG PC Client Platform Firmware Profile signatures, every 16-byte constant found in the eventlog sources of the tree under test, unknown ones) x 32 payload lengths from 0 (every small boundary) x 6 fills, with consistent size fields, as event data, TCG_PCR_EVENT2, header event, and inside a whole log in event and in header position; " +
-			"bit flips; stacked random edits; random bytes and patterns; textual re-encodings; inputs near 1 MiB. Monitor: core.Guard per call: panic, thread CPU > 2 s + 1 s/MiB, allocated bytes > 64 MiB + 4096*len(input); " +
+			"bit flips; stacked random edits; random bytes and patterns; textual re-encodings; inputs near 1 MiB. " +
+			"Appended families (dims.go; case numbers continue after the list above): chunk = declared sizes and counts on internal-buffer boundaries (2^k-1, 2^k, 2^k+1 for k = 7..17 (19 thorough), 255-byte strings, 7..1025 digests, up to 4097 events, whole-input lengths) with the declared data present, in every carrier; " +
+			"textenc = prefix x body encoding x suffix grammar of textual quotes (0x, BOM, '#', white space, separators, line breaks, padding; bodies from nothing to a genuine quote); efifile = UEFI variable files of 0..5 bytes / degenerate data behind a variable locator; " +
+			"optmatrix = the full cross product of the caller's options of SevPolicy, TdxPolicy, verify.Endorsement, verify.SNPValidateFunc, SevValidate, TdxValidate, extract.Endorsement (nil / empty / filled sub-options, every boolean with every other, zero / named / unendorsed counts, absent / failing collaborators) over the genuine endorsement, every signed golden variant and broken ones; " +
+			"session = one set of long-lived values (decode receivers, validator closures, options values, getter, variable reader, a receive buffer refilled in place) serving a sequence of inputs of one kind, with the same input twice in a row and again after another one, and receivers refilled with growing and shrinking arrays; " +
+			"concurrent = 8 goroutines starting the same entry point together, each on its own inputs (half of them fresh well-formed objects in every call) with its own receivers and collaborators, judged for panics (recovered per goroutine), fatal runtime errors, the batch allocation budget and non-termination. Monitor: core.Guard per call: panic, thread CPU > 2 s + 1 s/MiB, allocated bytes > 64 MiB + 4096*len(input); " +
 			"process-fatal failures (out of memory under ulimit -v 6 GiB, stack overflow) are attributed by the supervisor to the case logged before the call. " +
 			"non-trivial = a call on a non-genuine input that returned; distinct cells = (seed, operator class, entry point, returned ok|error)",
 		Assumptions: []string{
@@ -66,6 +71,8 @@ func init() {
 			"EfiVarFSReader.ReadVariable is driven only through exel.Locate (the function applied to untrusted locator bytes)",
 			"the genuine endorsement is signed with fixed embedded test keys and a deterministic salt stream so that every input is a function of (seed, case index) only",
 			"InspectMask is exercised with a fixed list of well-formed field paths; hostile paths belong to C19",
+			"state kept by the caller between calls (a refilled receiver, a long-lived validator closure or options value) and calls of other goroutines are part of 'every function ... returns a value or an error for every byte string': the property does not restrict the process in which the function is applied; only totality is judged there (results under concurrency are C09's, codec results on reused receivers C18's)",
+			"the caller's options are not untrusted, but totality has to hold under every option combination the API accepts; nil *options pointers*, a nil context and a nil TerminalWriter are API misuse and are not produced; extract.Options without a UEFIVariableReader is produced, observed and not judged (see judgeNilVariableReader)",
 			"the event-signature dictionary is extended with the 16-byte constants of <tree under test>/eventlog and /extract/eventlog (the replace target recorded in the worker's build info), so the case list is a function of (seed, tier, tree); when the sources cannot be read only the specification's signatures are used (see notes)",
 		},
 		ShardsQuick: 16, ShardsThor: 16, TimeoutS: 600, TimeoutThor: 3000, UlimitVKB: ulimitVKiB, Run: run,
@@ -855,6 +862,8 @@ func run(c *core.Ctx) {
 		c.End(i)
 		saveTallies()
 	}
+	// the appended workload dimensions (dims.go): case numbers continue after the list above
+	w.runDims(c, specs, ents, lim, deaths)
 	if st, err := os.ReadFile("/proc/self/status"); err == nil {
 		for _, l := range bytes.Split(st, []byte("\n")) {
 			var kb int64
